@@ -365,7 +365,8 @@ def oracle_session(rep, sess, results, mode, global_real):
     def fail(sig, msg, a, b=None):
         nonlocal nviol
         nviol += 1
-        if len(rep.violations) >= 12:       # enough concrete replays; the rest is counted only
+        sigs = {v["sig"] for v in rep.violations}
+        if sig in sigs or len(sigs) >= 12:   # one concrete replay per signature, at most 12 signatures; the rest is counted
             return
         steps = [{"op_index": a["op"], "op": a["opv"], "artifact": a["obj"], "kind": KIND[a["kind"]],
                   "field": FIELD.get(a["field"], a["field"]), "value": a["value"].hex()}]
